@@ -62,7 +62,7 @@ Section ListDepth.
   Lemma list_depth_pd capN : (list_depth ek capN + pd_of ek = Nat.max (int_log capN) (pd_of ek))%nat.
   Proof. unfold list_depth. lia. Qed.
 
-  (* needs nothing about the element kind; `1 <= capN` is not needed either (kept out) *)
+  (* needs nothing about the element kind, and no lower bound on capN (capacity 0 is legal) *)
   Lemma cap_list_depth_gen capN : capN <= pow2 64 -> capN <= cap ek (list_depth ek capN).
   Proof.
     intros Hle. unfold cap. rewrite list_depth_pd.
@@ -70,9 +70,9 @@ Section ListDepth.
     apply pow2_mono. lia.
   Qed.
 
-  Theorem cap_list_depth capN : 1 <= capN -> capN <= 2 ^ 63 -> capN <= cap ek (list_depth ek capN).
+  Theorem cap_list_depth capN : capN <= 2 ^ 63 -> capN <= cap ek (list_depth ek capN).
   Proof.
-    intros _ Hle. apply cap_list_depth_gen. change (pow2 64) with (2 * 2 ^ 63). lia.
+    intros Hle. apply cap_list_depth_gen. change (pow2 64) with (2 * 2 ^ 63). lia.
   Qed.
 
   Hypothesis EKW : ek_wf ek.
